@@ -464,6 +464,8 @@ class MessageQueue(Entity):
             message_id = event.context.get("message_id")
             if message_id:
                 self._redelivery_scheduled.discard(message_id)
+            # Deliver only if the message still waits for this redelivery (a poll may have taken it already)
+            if message_id and message_id in self._pending_queue:
                 delivery_event = yield from self._deliver_message(message_id)
                 if delivery_event:
                     return [delivery_event]
